@@ -2,6 +2,7 @@
 from ..core import rule
 from ..terms import drop_lv
 from .common import *
+from .loops import adds_every
 
 ABSORB_WHY = {
     'C02': 'if some part of other does not reach self, a+b lacks information b+a has; an inverted guard loses the larger value',
@@ -272,6 +273,25 @@ def cnt_read(ctx):
             if cl and cl[0] == 'closure':
                 cr = versionless(interp(facts, facts.cb(cl[1])).ret)
                 ok = cr == ('field', ('param', 2), 'counter')
+    if not ok:
+        # accumulator form: total = 0; for dot in self.inner.iter() { total += dot.counter }
+        from .loops import accumulates, item_derived
+        raw = interp(facts, body).ret
+
+        def init_ok(i):
+            return (i[0] == 'call' and call_name(i) in ('default', 'zero', 'new') and not i[2]) or (i[0] == 'const' and i[1] == 0) \
+                or (is_call(i, 'from') and i[2] and i[2][0][0] == 'const' and i[2][0][1] == 0)
+
+        def src_ok(lp):
+            pp = param_path(lp.source()[0])
+            return bool(pp and pp[0] == 1 and not lp.source()[2] and not (set(iter_adaptors(lp.src)) & LOSSY_ADAPTORS))
+
+        def step_ok(c, lp):
+            if call_name(c.term) != 'add_assign' or len(c.args) != 2:
+                return False
+            v = versionless(c.args[1].val)
+            return v[0] == 'field' and v[2] == 'counter' and as_item(v[1]) is not None and item_derived(c.args[1].val, lp)
+        ok = accumulates(facts, body, raw, init_ok, src_ok, step_ok)
     ctx.check(ok, 'GCounter::read', body, 'sum of the counters of every dot', 'GCounter::read is %s, expected the sum of every dot counter of inner' % fmt(r, 5))
     pos, neg, body, r = _pn_fields(facts, ctx)
     ok = pos is not None and neg is not None and pos != neg
@@ -331,9 +351,17 @@ def cnt_route(ctx):
                         return 'dir'
                 return None
             rc = Reach(facts, body, Evaluator(facts, bool_atom=atom, assumption={'dir': vnames.index(v)}))
-            good = [bb for bb, c in it.calls.items() if is_call(c.term, callee, self_adt='GCounter') and param_path(c.args[0].val) == (1, (fld,))
-                    and param_path(c.args[1].val) and param_path(c.args[1].val)[0] == 2 and param_path(c.args[1].val)[1][-1:] == ('dot',)]
-            wrong = [bb for bb, c in it.calls.items() if is_call(c.term, callee, self_adt='GCounter') and param_path(c.args[0].val) != (1, (fld,)) and bb in rc.reachable]
+            good, wrong = [], []
+            for bb, c in it.calls.items():
+                if not is_call(c.term, callee, self_adt='GCounter') or bb not in rc.reachable:
+                    continue
+                # the receiver may have been selected by an earlier match on the direction: resolve it on this path
+                recv = set(param_path(versionless(x)) for x in rc.arg_terms(bb, 0))
+                dots = param_path(versionless(c.args[1].val))
+                if recv == {(1, (fld,))} and dots and dots[0] == 2 and dots[1][-1:] == ('dot',):
+                    good.append(bb)
+                elif recv != {(1, (fld,))}:
+                    wrong.append(bb)
             if not good or not rc.must_pass(good):
                 errs.append('an op tagged %s is not routed to self.%s' % (v, fld))
             if wrong:
@@ -414,23 +442,7 @@ def gset_glist(ctx):
                 if call_name(c.term) == 'insert' and param_path(c.args[0].val) and param_path(c.args[0].val)[0] == 1 and versionless(c.args[-1].val) == ('param', 2):
                     ok = rc.must_pass([bb])
         else:
-            for bb, c in it.calls.items():
-                n = call_name(c.term)
-                if n in ('for_each', 'extend', 'append'):
-                    srcs = [a.val for a in c.args]
-                    src_ok = any(whole_iteration_over(a, 2, ('value',)) for a in srcs if a[0] != 'closure')
-                    if n == 'for_each':
-                        inner = False
-                        for clo, m in closure_bindings(c.term):
-                            cb = facts.cb(clo[1])
-                            cit = interp(facts, cb)
-                            for b2, c2 in cit.calls.items():
-                                if call_name(c2.term) == 'insert' and versionless(subst(c2.args[-1].val, m))[0] == 'item':
-                                    a0 = param_path(subst(c2.args[0].val, m))
-                                    inner = bool(a0 and a0[0] == 1)
-                        ok = src_ok and inner and rc.must_pass([bb])
-                    else:
-                        ok = src_ok and param_path(c.args[0].val) == (1, ('value',)) and rc.must_pass([bb])
+            ok, _site = adds_every(facts, body, it, ('value',), 2, ('value',))
         ctx.check(ok and writes, 'GSet::' + name, body, 'every incoming element inserted into value',
                   'GSet::%s does not insert every incoming element into self.value' % name,
                   props=['C11', 'C02', 'C03'] if name == 'merge' else ['C11', 'C03'])
@@ -438,8 +450,7 @@ def gset_glist(ctx):
     body = ctx.method(GLIST, 'CvRDT', 'merge')
     it = interp(facts, body)
     rc = Reach(facts, body, Evaluator(facts))
-    ok = any(call_name(c.term) in ('extend', 'append') and param_path(c.args[0].val) == (1, ('list',)) and whole_iteration_over(c.args[1].val, 2, ('list',))
-             and rc.must_pass([bb]) for bb, c in it.calls.items())
+    ok, _site = adds_every(facts, body, it, ('list',), 2, ('list',))
     ctx.check(ok, 'GList::merge', body, 'list extended by every identifier of other', 'GList::merge does not add every identifier of other.list to self.list',
               props=['C02', 'C03'])
     body = ctx.method(GLIST, 'CmRDT', 'apply')
